@@ -228,7 +228,24 @@ def build_props(prop_file, extra_targets=(), timeout=1500):
 
 def failing_coq_file(out):
     m = re.search(r'File "\./([^"]+)", line (\d+)', out)
-    return ("%s:%s" % (m.group(1), m.group(2))) if m else None
+    if not m:
+        return None
+    where = "%s:%s" % (m.group(1), m.group(2))
+    # name the statement the failing line belongs to (last Theorem/Lemma/... that starts at or before it)
+    try:
+        name = None
+        with open(os.path.join(COQ, m.group(1)), encoding="utf-8", errors="replace") as f:
+            for i, line in enumerate(f, 1):
+                if i > int(m.group(2)):
+                    break
+                mm = re.match(r"\s*(?:Local\s+|Global\s+)?(Theorem|Lemma|Corollary|Proposition|Fact|Remark|Example|Definition|Fixpoint|Instance)\s+([A-Za-z0-9_']+)", line)
+                if mm:
+                    name = "%s %s" % (mm.group(1), mm.group(2))
+        if name:
+            where += " (%s)" % name
+    except OSError:
+        pass
+    return where
 
 
 # ------------------------------------------------------------------------------------------------
@@ -424,6 +441,9 @@ def check_locked(pid, tier, seed, mods):
     ok, out = build_props(m.PROPS, getattr(m, "COQ_EXTRA_TARGETS", ()), timeout=getattr(m, "COQ_TIMEOUT", 1500))
     assumptions = parse_assumptions(out, printed) if ok else {}
     proofs_ok = ok
+    if any(p[2].get("kind") in ("build", "translator") and "gen" in str(p[2].get("what", "")) + p[1] for p in problems):
+        # the tables were not regenerated from this tree: whatever compiled was proved about stale tables
+        proofs_ok = False
     thm_status = []
     if ok:
         for t in theorems:
@@ -685,6 +705,16 @@ def replay(path):
     leg = [l for l in m.LEGS if l["driver"] == rp["driver"]][0]
     wd = os.path.join(WORK, pid.lower())
     os.makedirs(wd, exist_ok=True)
+    if getattr(m, "GEN", None):
+        # the model must be the one of the tree that is replayed on: regenerate the tables it is built from
+        gexe, err = build_driver("gen")
+        if gexe is None:
+            log("translator does not build:", err)
+            return 1
+        rc, out = sh([gexe] + list(m.GEN) + ["--repo", REPO, "--out", os.path.join(COQ, "Gen")], timeout=300)
+        if rc != 0:
+            log("translator cannot regenerate %s from the source:" % ",".join(m.GEN), out[-2000:])
+            return 1
     exe, err = build_driver(leg["driver"], leg.get("tags", "verif"))
     if exe is None:
         log("driver does not build:", err)
